@@ -227,6 +227,32 @@ def work(arg):
                     seen.add(k)
                     out['viol'].append(core.make_violation(sig, f'{name} on {iso_name}: analysing, converting the same object ({conv}) and analysing again gives '
                                                                 f'{"a result deviating by %.3g" % dev if o.ok else o.brief()[:150]}', {'isotherm': iso_name, 'conversion': conv}))
+    # the same content under user-chosen column names, converted permanently, then analysed
+    for conv in (dict(pressure_mode='absolute', pressure_unit='kPa'), dict(loading_basis='molar', loading_unit='mol')):
+        d = base.data_raw.rename(columns={base.pressure_key: 'p_meas', base.loading_key: 'uptake'})
+        named = pygaps.PointIsotherm(isotherm_data=d, pressure_key='p_meas', loading_key='uptake', **base.to_dict())
+        if not core.call(named.convert, **conv).ok:
+            continue
+        plain = clone(base)
+        plain.convert(**conv)
+        for name in names:
+            if name.startswith('psd_dft'):
+                continue
+            want = core.call(E[name][0], plain, timeout=600)
+            if not want.ok:
+                continue
+            o = core.call(E[name][0], named, timeout=600)
+            out['ev'] += 1
+            out['nt'] += 1
+            dev = cmp_result(want.value, o.value, 1e-9, E[name][2])[0] if o.ok else float('inf')
+            if dev > 1e-9:
+                sig = {'check': 'column-names', 'entry': name.split('(')[0]}
+                k = core.sig_key(sig)
+                if k not in seen:
+                    seen.add(k)
+                    out['viol'].append(core.make_violation(sig, f'{name} on {iso_name} converted with convert({conv}): an isotherm whose columns are called p_meas/uptake gives '
+                                                                f'{"a result deviating by %.3g" % dev if o.ok else o.brief()[:150]} from the same content under the default column names',
+                                                           {'isotherm': iso_name, 'conversion': conv}))
     # export -> import before the analysis
     import pygaps.parsing as pp
     rt = core.call(lambda: pp.isotherm_from_json(pp.isotherm_to_json(clone(base))))
@@ -249,7 +275,9 @@ def check_isosteric(ctx):
     ev = nt = 0
     files = ['BAX 1500 - Isosteric Heat - 298.json', 'BAX 1500 - Isosteric Heat - 323.json', 'BAX 1500 - Isosteric Heat - 348.json']
     isos = [pp.isotherm_from_json(os.path.join(DATA, 'isosteric', f)) for f in files]
-    b0 = core.call(pgc.isosteric_enthalpy, [clone(i) for i in isos], loading_points=[0.5, 1.0, 2.0, 3.0])
+    b0 = core.call(pgc.isosteric_enthalpy, [clone(i) for i in isos], loading_points=[1.0, 2.0, 3.0, 5.0])
+    if not b0.ok:
+        raise core.HarnessError(f'baseline isosteric enthalpy of the measured set does not return: {b0.brief()}')
     for pm, pu in P_REPS:
         for lb, lu in (Q_L if ctx.quick else L_REPS):
             for tu in ('K', '°C'):
@@ -264,7 +292,7 @@ def check_isosteric(ctx):
                     continue
                 c = ru.ads_consts('n-Butane', conv[0].temperature)
                 with ru.library_tables():
-                    lp = [float(ru.c_loading(x, 'molar', 'mmol', lb, lu, c)) for x in (0.5, 1.0, 2.0, 3.0)]
+                    lp = [float(ru.c_loading(x, 'molar', 'mmol', lb, lu, c)) for x in (1.0, 2.0, 3.0, 5.0)]
                 o = core.call(pgc.isosteric_enthalpy, conv, loading_points=lp)
                 ev += 1
                 nt += 1
@@ -272,18 +300,53 @@ def check_isosteric(ctx):
                 ctx.track('isosteric_enthalpy', dev if dev != float('inf') else 0.0, 1e-6)
                 if dev > 1e-6:
                     cls = 'relative-pressure' if pm != 'absolute' else 'absolute-pressure'
-                    ctx.violate(core.make_violation({'check': 'unit-invariance', 'entry': 'isosteric_enthalpy', 'converted': cls},
+                    ctx.violate(core.make_violation({'check': 'unit-invariance', 'entry': 'isosteric_enthalpy', 'converted': cls,
+                                                     'loading': 'per-volume-of-adsorbate (temperature dependent)' if lb.startswith('volume') else 'amount',
+                                                     'kind': 'value' if o.ok else 'raises:' + o.kind},
                                                     f'isosteric_enthalpy on the BAX-1500 set stored as {(pm, pu, lb, lu, tu)}: {o.value["isosteric_enthalpy"] if o.ok else o.brief()} instead of {b0.value["isosteric_enthalpy"]}',
                                                     {'rep': (pm, pu, lb, lu, tu)}))
+    # loading_points omitted (default grid) and sets whose members are stored in DIFFERENT representations: results are in the
+    # units of the first isotherm, whatever the others are stored in
+    b0d = core.call(pgc.isosteric_enthalpy, [clone(i) for i in isos])
+    mixes = [dict(loading_unit='cm3(STP)'), dict(loading_unit='mol'), dict(loading_basis='mass', loading_unit='mg'), dict(pressure_unit='kPa'),
+             dict(pressure_mode='relative'), dict(material_unit='kg')]
+    for which in ([1], [2], [1, 2], [0]):
+        for conv in mixes:
+            objs = [clone(i) for i in isos]
+            ok = all(core.call(objs[w].convert, **conv).ok for w in which)
+            if not ok or not b0d.ok or not b0.ok:
+                continue
+            first_conv = conv if 0 in which else {}
+            c = ru.ads_consts('n-Butane', objs[0].temperature)
+            with ru.library_tables():
+                fl = float(ru.c_loading(1.0, 'molar', 'mmol', first_conv.get('loading_basis', 'molar'), first_conv.get('loading_unit', 'mmol'), c))
+            if 'material_unit' in first_conv:
+                fl *= 1000.0
+            for lp in (None, [x * fl for x in (1.0, 2.0, 3.0, 5.0)]):
+                want = b0d if lp is None else b0
+                o = core.call(pgc.isosteric_enthalpy, objs, loading_points=lp)
+                ev += 1
+                nt += 1
+                if not o.ok and o.kind == 'ParameterError' and 'loading_basis' in conv and len(which) < 3:
+                    continue        # members in different loading BASES are refused: a refusal is not a changed result
+                bad = not o.ok or len(o.value['isosteric_enthalpy']) != len(want.value['isosteric_enthalpy']) or \
+                    core.relerr(o.value['isosteric_enthalpy'], want.value['isosteric_enthalpy']) > 1e-6 or \
+                    core.relerr(numpy.asarray(o.value['loading'], dtype=float) / fl, want.value['loading']) > 1e-9
+                if bad:
+                    ctx.violate(core.make_violation(
+                        {'check': 'mixed-representation-set', 'entry': 'isosteric_enthalpy', 'grid': 'default' if lp is None else 'given', 'converted_members': str(which)},
+                        f'isosteric_enthalpy (loading_points={"omitted" if lp is None else lp}) with isotherm(s) {which} of the BAX-1500 set stored after convert({conv}): '
+                        f'{(list(o.value["loading"][:3]), list(o.value["isosteric_enthalpy"][:3])) if o.ok else o.brief()[:160]} instead of '
+                        f'{(list(want.value["loading"][:3]), list(want.value["isosteric_enthalpy"][:3]))}', {'conversion': conv, 'members': which}))
     # the same objects analysed, converted in place (unit only / basis), analysed again
     for conv, lb, lu in ((dict(loading_unit='mol'), 'molar', 'mol'), (dict(loading_basis='mass', loading_unit='mg'), 'mass', 'mg'), (dict(pressure_unit='kPa'), 'molar', 'mmol')):
         objs = [clone(i) for i in isos]
-        core.call(pgc.isosteric_enthalpy, objs, loading_points=[0.5, 1.0, 2.0, 3.0])
+        core.call(pgc.isosteric_enthalpy, objs, loading_points=[1.0, 2.0, 3.0, 5.0])
         for o_ in objs:
             o_.convert(**conv)
         c = ru.ads_consts('n-Butane', objs[0].temperature)
         with ru.library_tables():
-            lp = [float(ru.c_loading(x, 'molar', 'mmol', lb, lu, c)) for x in (0.5, 1.0, 2.0, 3.0)]
+            lp = [float(ru.c_loading(x, 'molar', 'mmol', lb, lu, c)) for x in (1.0, 2.0, 3.0, 5.0)]
         o = core.call(pgc.isosteric_enthalpy, objs, loading_points=lp)
         ev += 1
         nt += 1
@@ -292,6 +355,7 @@ def check_isosteric(ctx):
                                             f'isosteric_enthalpy, then convert({conv}) on the same isotherm objects, then isosteric_enthalpy again: '
                                             f'{o.value["isosteric_enthalpy"] if o.ok else o.brief()[:160]} instead of {b0.value["isosteric_enthalpy"]}', {'conversion': conv}))
     ctx.add('isosteric_enthalpy', ev, nt)
+    ctx.require('isosteric_enthalpy_cases', nt, 30)
 
 
 def check_alpha_reference(ctx):
